@@ -413,5 +413,40 @@ pub fn record(args: &Args) {
             }
         }
     }
+    // a game whose infosets are shared by all parallel tasks, many threads, repeated: the accumulators under contention
+    // (a lost update shows as a difference far above rounding; 50 iterations keep rounding drift below 1e-11)
+    {
+        let mut tg = zoo::hot();
+        generic_payoffs(&mut tg, &mut rng);
+        for meth in ["Full", "Sampled"] {
+            if only.map_or(false, |o| o != meth) {
+                continue;
+            }
+            let sd = seed.wrapping_mul(17).wrapping_add(3);
+            let iters = 50;
+            let Ok(one) = thresholded(&tg, meth, "vanilla", 1, iters, 0.0, sd) else { continue };
+            let reps = if thorough { 12 } else { 4 };
+            for &k in &[4usize, 5, 6] {
+                for rep in 0..reps {
+                    match thresholded(&tg, meth, "vanilla", k, iters, 0.0, sd) {
+                        Err(msg) => cmp.line(&json!({"status": "violation", "game": "hot", "method": meth, "k": k, "T": iters,
+                            "mismatch": [{"class": "panic", "what": "solve failed or panicked with several threads (hot game)", "observed": msg}]})),
+                        Ok((_, dense, bounds)) => {
+                            runs += 1;
+                            let d = max_diff(&dense, &one.1);
+                            let db = (0..2).map(|p| (bounds[p] - one.2[p]).abs() / one.2[p].abs().max(1.0)).fold(0.0, f64::max);
+                            if d > 1e-9 || db > 1e-9 || d.is_nan() || db.is_nan() {
+                                cmp.line(&json!({"status": "violation", "game": "hot", "method": meth, "k": k, "T": iters, "rep": rep,
+                                    "mismatch": [{"class": "differs", "what": "result with several threads differs from one thread (contended infosets)",
+                                        "max_probability_difference": d, "max_bound_difference": db}], "seed": sd}));
+                            } else if rep == 0 {
+                                cmp.line(&json!({"status": "ok", "game": "hot", "method": meth, "k": k, "T": iters, "nontrivial": true}));
+                            }
+                        }
+                    }
+                }
+            }
+        }
+    }
     println!("{}", json!({"runs": runs, "nontrivial_cuts": nontrivial, "passes": passes_total, "games": games.len()}));
 }
